@@ -4,6 +4,7 @@ pub mod annex_f;
 pub mod dict;
 pub mod ds;
 pub mod file;
+pub mod lut;
 pub mod negotiate;
 pub mod pdu;
 pub mod rle;
